@@ -6,7 +6,7 @@ import os
 import subprocess
 import tempfile
 
-from vt import creds, pair
+from vt import creds, pair, drive
 from vt.pair import Pair
 from vt.refs import sigref as R
 
@@ -555,6 +555,19 @@ def run_rsa_pss(ctx, P):
             continue
         c.neg(cls, lambda: verify_rsa(k, s, dig0, "pss", h, sl),
               dict(wit, em=em, sig=s))
+    if kl > emlen:
+        # modulus of 8k+1 bits: EM is one octet shorter than the modulus and
+        # the octet in front of it has to be zero (RFC 8017 9.1.2 step 1
+        # works on emLen octets; a set bit there is a different integer)
+        for attempt in range(40):
+            em = R.emsa_pss(dig0, embits, h, ctx.rng.randbytes(sl))
+            s = rsa_sig_from_em(k, b"\x01" + em)
+            if s is not None:
+                c.neg("leading_octet_nonzero", lambda: verify_rsa(
+                    k, s, dig0, "pss", h, sl), dict(wit, em=em, sig=s))
+                break
+        else:
+            ctx.count("skipped_em_ge_n")
     for sl2 in sorted({0, hl, sl + 1, sl - 1, salt_len("max", h, embits)}):
         if sl2 != sl and sl2 >= 0:
             c.neg("salt_len_changed", lambda: verify_rsa(
@@ -1633,14 +1646,27 @@ def run_fault(ctx, P):
     if P["fault"] != "none":
         fault = Fault(key, P["fault"], P["nth"])
     log = SignLog(key, conn)
+    pha = bool(P.get("pha"))
     tc, ts = p.run(
         p.c.handshakeClientCert(settings=cs, async_=True, **ckw),
         p.s.handshakeServerAsync(certChain=sch, privateKey=sk, settings=ss,
-                                 reqCert=bool(ck)))
+                                 reqCert=bool(ck) and not pha))
+    if pha and tc.status == "done" and ts.status == "done":
+        def sprog():
+            for r in p.s.request_post_handshake_auth():
+                yield r
+            r = yield from drive.aread(p.s, None, 0)
+            return r
+
+        def cprog():
+            r = yield from drive.aread(p.c, None, 0)
+            return r
+        tc, ts = p.run(cprog(), sprog())
     me = ts if signer == "server" else tc
     msgname = "ServerKeyExchange" if signer == "server" and ver < (3, 4) \
         else "CertificateVerify"
-    site = "%s/%s/%s/%s" % (signer, kt, pair.VNAME[ver], msgname)
+    site = "%s/%s/%s/%s%s" % (signer, kt, pair.VNAME[ver], msgname,
+                              "(post-handshake)" if pha else "")
     base = {"keytype": kt, "signer": signer, "message": msgname,
             "version": pair.VNAME[ver]}
     wit = {"params": P, "client": pair.outcome(tc),
@@ -1806,13 +1832,19 @@ def make_cases(ctx):
         for ver in vers:
             flav.append(dict(signer="client", skey="rsa", kx="ecdhe_rsa",
                              ckey=ckey, ver=ver, kt=creds.CLIENT[ckey][2]))
+            if tuple(ver) == (3, 4):
+                # the same signer in post-handshake authentication
+                flav.append(dict(signer="client", skey="rsa", kx="ecdhe_rsa",
+                                 ckey=ckey, ver=ver, pha=True,
+                                 kt=creds.CLIENT[ckey][2]))
     for fl in flav:
         kt = fl.pop("kt")
         if kt == "eddsa":
             kt = "Ed448" if "448" in (fl.get("ckey") or fl["skey"]) \
                 else "Ed25519"
-        tag = "%s-%s-%s-%d%d" % (fl["signer"], fl.get("ckey") or fl["skey"],
-                                 fl["kx"], fl["ver"][0], fl["ver"][1])
+        tag = "%s-%s-%s-%d%d%s" % (fl["signer"], fl.get("ckey") or fl["skey"],
+                                   fl["kx"], fl["ver"][0], fl["ver"][1],
+                                   "-pha" if fl.get("pha") else "")
         yield "fault/%s/control" % tag, dict(fl, f="fault", fault="none",
                                              nth=None)
         kinds = FAULT_KINDS[kt]
